@@ -14,6 +14,12 @@ temporal_k+1) is a transition of the model's loop body.
 
 Property oracle (independent of the Coq model: numpy Kabsch/Umeyama + random transforms of the class,
 brute-force closest points): run on EVERY case; it is what turns a disagreement into a failing input.
+It also requires a finite answer whose quaternion has unit norm (checked BEFORE anything is turned into a Coq literal: a
+non-finite / degenerate answer is a reported input, not a harness crash).  Regimes generated on purpose: every support pattern
+of the rotation's quaternion (rotations about coordinate axes, half turns about axes in coordinate planes: all regions of the
+matrix -> quaternion conversion and their boundaries) in batches mixed with generic rotations; clouds far from the origin
+relative to their spacing and ICP clouds below / above two dozen / a hundred points (distance computations that lose the
+spacing in the magnitude of the coordinates, or switch algorithm with the size, show up there).
 History: the source before fix 23d9fa1 negated the whole matrix in svdtf's reflection branch (and ICP
 on planar clouds failed through it); the recorded witnesses of both are regression cases of every
 run, a recurrence is reported as a VIOLATION (known_findings.txt lists them as `fixed:`).
@@ -29,12 +35,16 @@ K_TF = 'svdtf:reflection-branch:det(U@Vh)=-1:whole-matrix-negated'
 K_ICP = 'ICP.forward:planar-cloud:svdtf-reflection-branch'
 
 RULE = ('clouds: generic / planar (axis-aligned and tilted) / collinear / duplicated points / minimal 3-point, N in 3..200, spreads 0.1..10, '
-        'offsets up to 10; target = s R source + t + noise with R uniform on SO(3) or a special rotation (identity, half turns about x/y/z, '
-        'quarter turns: every mat2SO3 region), s in 0.1..10 (svdstf), noise sigma in {0, 1e-3..0.5} (isotropic or in-plane: reflection-prone), '
+        'offsets up to 10 or far from the origin (1e2..1e6 x spread); target = s R source + t + noise with R uniform on SO(3) or a special rotation (identity, '
+        'half turns about x/y/z, quarter turns, near-pi, tiny; every support pattern of the quaternion: rotations about a coordinate axis by any angle, half turns '
+        'about axes in the coordinate planes, exact / tied magnitudes / just off the pattern, in batches mixed with generic ones: every mat2SO3 region and its '
+        'boundaries; the returned quaternion must be finite and of unit norm), s in 0.1..10 (svdstf), noise sigma in {0, 1e-3..0.5} (isotropic or in-plane: reflection-prone), '
         'batch shapes (), (1,), (2,), (3,), (2,2); a case = one (source, target) pair of one call; non-trivial = N >= 3 and source not a single point; '
         'distinct by value; directed block first (every flip branch x mat2SO3 region x with_scale), then random; tolerances %d eps x magnitude '
         '(rotation entries, translation, scale), oracle contract 64 eps (orthogonality) and %d eps x sum|t||s| (factorisation); '
-        'ICP: generic (in-basin exact perturbations: must be recovered) and planar clouds, permuted targets, init / no init, batched; '
+        'ICP: generic (in-basin exact perturbations about the centroid: must be recovered to ~1e-12 x magnitude) and planar clouds, 4..200 points (below / above two dozen '
+        '/ a hundred), at the origin or 1e2..5e9 smallest-point-distances away from it, permuted targets, init / no init, batched, call forms (ord / dim given or not), '
+        'judged call = 2nd call on its object; knn contract up to 64 eps x squared diameter; '
         'EPnP: 6..100 points in front of the camera, exact projections, refine on/off, batched' % (K_EPS, K_EPS))
 
 
@@ -86,7 +96,7 @@ def fl(t):
 def quat_R(q):
     x, y, z, w = q
     n = x * x + y * y + z * z + w * w
-    s = 2.0 / n
+    s = 2.0 / n if n != 0 else float('nan')
     return [[1 - s * (y * y + z * z), s * (x * y - z * w), s * (x * z + y * w)],
             [s * (x * y + z * w), 1 - s * (x * x + z * z), s * (y * z - x * w)],
             [s * (x * z - y * w), s * (y * z + x * w), 1 - s * (x * x + y * y)]]
@@ -103,9 +113,32 @@ SPECIAL = {
 }
 
 
+def sparse_quat(rng, mask, near, equal):
+    """quaternion (x, y, z, w) supported on the components named by the bits of mask (1 x, 2 y, 4 z, 8 w): every rotation
+    about a coordinate axis by any angle (support {axis, w}: more / less than 90 degrees, both senses), every half turn about
+    an axis in a coordinate plane (two of x y z) or a generic axis (x y z), rotations about axes in a coordinate plane;
+    `equal`: all supported components of the same magnitude (ties between the diagonal entries of R: quarter turns, 120 degree
+    turns, half turns about a face diagonal); `near`: the other components are tiny instead of zero (just off those sets)"""
+    q = []
+    for j in range(4):
+        if mask >> j & 1:
+            q.append(rng.choice([-1.0, 1.0]) if equal else rng.gauss(0, 1) or 1.0)
+        else:
+            q.append(rng.gauss(0, 1) * 10 ** rng.uniform(-12, -4) if near else 0.0)
+    return q
+
+
 def gen_rot(rng, kind):
     if kind in SPECIAL:
         return [[float(v) for v in r] for r in SPECIAL[kind]]
+    if kind.startswith('sparse') or kind.startswith('near-sparse'):
+        # 'sparse' | 'sparse:<mask>' | 'sparse-eq:<mask>' | 'near-sparse[:<mask>]'
+        head, _, m = kind.partition(':')
+        mask = int(m) if m else rng.randint(1, 15)
+        while True:
+            q = sparse_quat(rng, mask, head.startswith('near'), head.endswith('-eq') or (not m and rng.random() < 0.25))
+            if sum(a * a for a in q) > 1e-3:
+                return quat_R(q)
     if kind == 'near-turn':
         ax = unit(rng)
         th = math.pi - 10 ** rng.uniform(-9, -2)
@@ -135,9 +168,13 @@ def mv(R, p):
 CLOUD_KINDS = ['generic', 'planar', 'planar-tilted', 'collinear', 'duplicated', 'minimal', 'grid']
 
 
-def gen_cloud(rng, kind, N):
+def gen_cloud(rng, kind, N, far=0.0):
+    """far > 0: the cloud sits at distance ~ far x spread from the origin (map / world coordinates)"""
     spread = rng.choice([0.1, 1.0, 1.0, 3.0, 10.0])
     off = [rng.uniform(-10, 10) if rng.random() < 0.6 else 0.0 for _ in range(3)]
+    if far > 0:
+        d = unit(rng)
+        off = [d[j] * far * spread for j in range(3)]
     if kind == 'minimal':
         N = 3
     if kind == 'grid':
@@ -167,8 +204,8 @@ def gen_cloud(rng, kind, N):
     return [[p[0] + off[0], p[1] + off[1], p[2] + off[2]] for p in pts]
 
 
-def gen_pair(rng, kind, N, rkind, scale, noise, noise_kind):
-    src = gen_cloud(rng, kind, N)
+def gen_pair(rng, kind, N, rkind, scale, noise, noise_kind, far=0.0):
+    src = gen_cloud(rng, kind, N, far)
     R = gen_rot(rng, rkind)
     t = [rng.uniform(-10, 10) if rng.random() < 0.7 else 0.0 for _ in range(3)]
     tgt = []
@@ -248,10 +285,24 @@ def out_transform(pp, torch, T, sim):
     return (v[7] if sim else 1.0), R, v[0:3], v
 
 
-def oracle_align(rng, src, tgt, s, R, t, sim, with_scale, exact):
-    """property text on one output: proper rotation, residual not larger than the optimum of the
-    class nor than random members of the class, exact correspondences reproduced.  Returns None | str"""
+def finite(x):
+    """every number in a nested list / tuple is finite"""
+    if isinstance(x, (list, tuple)):
+        return all(finite(v) for v in x)
+    return math.isfinite(x)
+
+
+def oracle_align(rng, src, tgt, s, R, t, sim, with_scale, exact, q=None):
+    """property text on one output: a valid group element (unit quaternion, i.e. a proper rotation), residual not larger
+    than the optimum of the class nor than random members of the class, exact correspondences reproduced.
+    q: the raw quaternion of the returned LieTensor (R is its rotation matrix).  Returns None | str"""
     np = np_()
+    if q is not None:
+        if not finite(list(q) + list(t) + [s]):
+            return 'non-finite output: translation %s, quaternion %s%s' % (list(t), list(q), ', scale %r' % s if sim else '')
+        qn = math.sqrt(sum(a * a for a in q))
+        if abs(qn - 1) > 1e-9:
+            return 'the returned element is not a rigid / similarity transform: its quaternion %s has norm %.6g, not 1' % (list(q), qn)
     Rn = np.asarray(R)
     if not all(math.isfinite(v) for v in list(Rn.reshape(-1)) + list(t) + [s]):
         return 'non-finite output'
@@ -371,6 +422,17 @@ def plan_align(ctx):
         for _ in range(ctx.scale(4, 12)):
             plan.append(dict(fn=fn, ck=rng.choice(['generic', 'minimal', 'planar']), rk='uniform', N=rng.choice([3, 4, 5]),
                              noise=rng.choice([0.3, 0.5]), nk=rng.choice(['iso', 'in-plane']), s=1.0, ws=True, shape=()))
+        # every support pattern of the rotation's quaternion (rotations about the coordinate axes by any angle, half turns about
+        # axes in the coordinate planes, ...: every way a branch of the matrix -> quaternion conversion can be the wrong one),
+        # generic / tied magnitudes / just off the pattern; each batch mixes them with generic rotations and is judged item by item
+        for rep in range(ctx.scale(1, 4)):
+            for head in ('sparse', 'near-sparse', 'sparse-eq'):
+                rks = ['%s:%d' % (head, m) for m in range(1, 16)] + ['uniform']
+                rng.shuffle(rks)
+                ck = rng.choice(['generic', 'generic', 'planar-tilted', 'minimal'])
+                plan.append(dict(fn=fn, ck=ck, rk='uniform', rks=rks, N=3 if ck == 'minimal' else rng.choice([4, 6]),
+                                 noise=0.0, nk='iso', s=(1.0 if fn == 'svdtf' else rng.choice([0.5, 2.5])), ws=True,
+                                 shape=rng.choice([(16,), (4, 4), (2, 8)])))
     n = ctx.scale(64, 800)
     for _ in range(n):
         fn = rng.choice(['svdtf', 'svdstf'])
@@ -378,7 +440,9 @@ def plan_align(ctx):
         r = rng.random()
         N = 3 if ck == 'minimal' else (rng.randint(3, 12) if r < 0.75 else (rng.randint(13, 60) if r < 0.95 else rng.randint(61, 200)))
         noise = rng.choice([0.0, 0.0, 10 ** rng.uniform(-3, -1), rng.uniform(0.1, 0.5)])
-        plan.append(dict(fn=fn, ck=ck, rk=rng.choice(['uniform'] * 6 + ['near-turn', 'small', 'identity', 'turn-x', 'turn-y', 'turn-z', 'cyclic', 'quarter-x']),
+        plan.append(dict(fn=fn, ck=ck, rk=rng.choice(['uniform'] * 6 + ['near-turn', 'small', 'identity', 'turn-x', 'turn-y', 'turn-z', 'cyclic', 'quarter-x',
+                                                                        'sparse', 'sparse', 'near-sparse']),
+                         far=(0.0 if rng.random() < 0.8 else 10 ** rng.uniform(2, 6)),
                          N=N, noise=noise, nk=rng.choice(['iso', 'iso', 'in-plane']),
                          s=(1.0 if fn == 'svdtf' else math.exp(rng.uniform(math.log(0.1), math.log(10)))),
                          ws=(rng.random() < 0.75), shape=rng.choice([(), (), (1,), (2,), (3,), (2, 2)] if N <= 60 else [(), (1,)])))
@@ -396,7 +460,7 @@ def align_block(ctx, pp, torch):
         pairs = []
         for _ in range(B):
             s = pl['s'] if (fn == 'svdstf' and pl['ws']) else 1.0
-            pairs.append(gen_pair(rng, pl['ck'], pl['N'], pl['rk'], s, pl['noise'], pl['nk']))
+            pairs.append(gen_pair(rng, pl['ck'], pl['N'], pl['rks'][len(pairs)] if 'rks' in pl else pl['rk'], s, pl['noise'], pl['nk'], pl.get('far', 0.0)))
         srcs, tgts = [p[0] for p in pairs], [p[1] for p in pairs]
         try:
             items = call_align(pp, torch, fn, srcs, tgts, shape, with_scale=pl['ws'])
@@ -410,7 +474,7 @@ def align_block(ctx, pp, torch):
             o = it['out']
             s_out = o[7] if sim else 1.0
             R_out = quat_R(o[3:7])
-            flip = det3(mm(it['U'], it['Vh'])) < 0
+            flip = det3(mm(it['U'], it['Vh'])) < 0      # (False for a non-finite answer)
             i = len(meta)
             rec = dict(fn=fn, src=src, tgt=tgt, with_scale=pl['ws'], shape=list(shape), item=b, exact=(pl['noise'] == 0.0))
             br = '%s:%s:%s:region%d' % (fn, 'reflection' if flip else 'no-reflection', rank_class(it['S']), region_of(R_out))
@@ -420,15 +484,22 @@ def align_block(ctx, pp, torch):
                      sample=dict(fn=fn, source=src, target=tgt, impl_out=o, U=it['U'], S=it['S'], Vh=it['Vh']) if (i % 97 == 3 and len(src) <= 5) else None)
             ctx.count('cloud:' + pl['ck'])
             ctx.count('N:%s' % ('3' if len(src) == 3 else '4-12' if len(src) <= 12 else '13-60' if len(src) <= 60 else '61-200'))
+            if pl.get('far', 0.0) > 0:
+                ctx.count('cloud-far-from-origin:%s' % fn)
+            if 'rks' in pl:
+                ctx.count('rotation-quaternion-support:%s' % pl['rks'][b])
             meta.append(dict(rec, flip=flip, kind=pl['ck'], it=it))
-            tol = tolerances(src, tgt, s_out if sim else 1.0)
-            if sim:
-                stf_lits.append((i, stf_case_lit(i, pl['ws'], src, tgt, it, tol)))
-            else:
-                tf_lits.append((i, tf_case_lit(i, src, tgt, it, tol, flip)))
             # ---- the property itself, on this output
-            why = oracle_align(rng, src, tgt, s_out, R_out, o[0:3], sim, pl['ws'], rec['exact'])
+            why = oracle_align(rng, src, tgt, s_out, R_out, o[0:3], sim, pl['ws'], rec['exact'], q=o[3:7])
             meta[-1]['why'] = why
+            if finite([o, it['U'], it['S'], it['Vh']]):
+                tol = tolerances(src, tgt, s_out if sim else 1.0)
+                if sim:
+                    stf_lits.append((i, stf_case_lit(i, pl['ws'], src, tgt, it, tol)))
+                else:
+                    tf_lits.append((i, tf_case_lit(i, src, tgt, it, tol, flip)))
+            elif not why:
+                why = meta[-1]['why'] = 'non-finite SVD answer / output: %s' % o
             if why:
                 ctx.violation(align_key(fn, flip), '%s(source, target)%s, N=%d %s cloud: %s' % (
                     fn, '' if not sim else ' with_scale=%s' % pl['ws'], len(src), pl['ck'], why), rec)
@@ -693,35 +764,48 @@ def se3_apply_np(v, P):
     return np.asarray(P) @ R.T + np.asarray(v[0:3])
 
 
-def gen_icp(rng, kind, N):
-    """source, target = permuted exact rigid perturbation of the source that is inside the basin:
-    every displacement < 1/4 of the smallest distance between two target points (so the very first
-    closest-point assignment is the true correspondence, with margin left for an init / a shift)"""
+def gen_icp(rng, kind, N, far=0.0):
+    """source, target = permuted exact rigid perturbation of the source (a small rotation about the cloud's centroid and a
+    small translation) that is inside the basin: every displacement < 1/4 of the smallest distance between two target points
+    (so the very first closest-point assignment is the true correspondence, with margin left for an init / a shift).
+    far > 0: the cloud sits at distance far x (smallest point distance) from the origin; the spacing of the points stays far
+    above the resolution of float64 there (far <= 1e10: one ulp of a coordinate <= 2e-6 of the smallest point distance)"""
     np = np_()
     while True:
         src = gen_cloud(rng, 'planar' if kind == 'planar' else ('planar-tilted' if kind == 'planar-tilted' else 'generic'), N)
         X = np.asarray(src)
         D = ((X[:, None, :] - X[None, :, :]) ** 2).sum(-1) ** 0.5 + np.eye(N) * 1e9
         dmin = float(D.min())
-        if dmin > 0.02 * float(np.abs(X - X.mean(0)).max()):
+        # no nearly coincident points (the basin is a fraction of dmin); the bound follows the typical spacing of N points
+        if not dmin > 0.02 * min(1.0, 30.0 / N) * float(np.abs(X - X.mean(0)).max()):
+            continue
+        if far > 0:
+            d = unit(rng)
+            X = X + np.asarray([d[j] * far * dmin for j in range(3)])       # rounded to float64: the cloud as the implementation sees it
+            D = ((X[:, None, :] - X[None, :, :]) ** 2).sum(-1) ** 0.5 + np.eye(N) * 1e300
+            dmin = float(D.min())
+        c = X.mean(0)
+        ext = float(((X - c) ** 2).sum(-1).max() ** 0.5) + 1e-9             # radius about the centroid
+        ax = unit(rng)
+        th = rng.uniform(0.2, 1.0) * 0.25 * dmin / (2 * ext)
+        R = quat_R([ax[0] * math.sin(th / 2), ax[1] * math.sin(th / 2), ax[2] * math.sin(th / 2), math.cos(th / 2)])
+        d = unit(rng)
+        tm = rng.uniform(0.0, 1.0) * 0.12 * dmin
+        t = [d[i] * tm for i in range(3)]
+        Y = (X - c) @ np.asarray(R).T + c + np.asarray(t)
+        if float((((Y - X) ** 2).sum(-1) ** 0.5).max()) < 0.25 * dmin:
             break
-    ax = unit(rng)
-    ext = float(np.abs(X).max()) + 1e-9
-    th = rng.uniform(0.2, 1.0) * 0.25 * dmin / (2 * ext)
-    R = quat_R([ax[0] * math.sin(th / 2), ax[1] * math.sin(th / 2), ax[2] * math.sin(th / 2), math.cos(th / 2)])
-    d = unit(rng)
-    tm = rng.uniform(0.0, 1.0) * 0.12 * dmin
-    t = [d[i] * tm for i in range(3)]
-    Y = X @ np.asarray(R).T + np.asarray(t)
-    assert float((((Y - X) ** 2).sum(-1) ** 0.5).max()) < 0.25 * dmin
     perm = list(range(N))
     rng.shuffle(perm)
     tgt = [[float(v) for v in Y[j]] for j in perm]
-    src = [[float(v) for v in p] for p in src]
-    return src, tgt, dict(R=R, t=t, dmin=dmin, ext=ext)
+    src = [[float(v) for v in p] for p in X]
+    return src, tgt, dict(R=R, t=t, dmin=dmin, ext=float(((X ** 2).sum(-1)).max() ** 0.5) + 1e-9)
 
 
-def run_icp(pp, torch, srcs, tgts, shape, steps, patience, init, share_target):
+ICP_FORMS = [dict(), dict(ord=2), dict(dim=-1), dict(ord=2, dim=-1)]
+
+
+def run_icp(pp, torch, srcs, tgts, shape, steps, patience, init, share_target, form=0):
     """one real ICP call with its knn / svdtf / SVD calls recorded"""
     icpmod = sys.modules['pypose.module.icp']
     S = torch.tensor(srcs, dtype=torch.float64)
@@ -755,7 +839,7 @@ def run_icp(pp, torch, srcs, tgts, shape, steps, patience, init, share_target):
     icpmod.knn, icpmod.svdtf = rknn, rsvdtf
     try:
         with record_svd(torch, slog):
-            out = icp(S, T, init=init)
+            out = icp(S, T, init=init, **ICP_FORMS[form])
     finally:
         icpmod.knn, icpmod.svdtf = oknn, osvdtf
     return out, klog, alog
@@ -766,16 +850,30 @@ def icp_block(ctx, pp, torch):
     rng = ctx.rng
     n = ctx.scale(10, 100)
     icp_lits, tf_lits, meta = [], [], []
-    plan = [('generic', ()), ('planar', ()), ('planar-tilted', ()), ('generic', (2,)), ('generic', ())]
+    big = ctx.scale(60, 200)
+    # directed: the basic forms, then the regimes of (number of points) x (distance of the clouds from the origin relative to their
+    # spacing): few / more than two dozen / a hundred points, at the origin / far / very far away (float64 still resolves the spacing
+    # to better than 1e-6 there), single and batched, planar too
+    plan = [dict(kind='generic', shape=()), dict(kind='planar', shape=()), dict(kind='planar-tilted', shape=()), dict(kind='generic', shape=(2,)),
+            dict(kind='generic', shape=()),
+            dict(kind='generic', shape=(), N=rng.randint(26, 40)),
+            dict(kind='generic', shape=(), N=rng.randint(8, 24), far=10 ** rng.uniform(8.5, 9.7)),
+            dict(kind='generic', shape=(), N=rng.randint(26, 60), far=10 ** rng.uniform(8.5, 9.7)),
+            dict(kind='generic', shape=(2,), N=rng.randint(26, 40), far=10 ** rng.uniform(7.5, 9.5)),
+            dict(kind=rng.choice(['planar', 'planar-tilted']), shape=(), N=rng.randint(26, 40), far=10 ** rng.uniform(3, 9.5)),
+            dict(kind='generic', shape=(), N=rng.randint(100, 200), far=10 ** rng.uniform(8.5, 9.7))]
+    n += len(plan) - 5
     for k in range(n):
-        kind, shape = plan[k] if k < len(plan) else (rng.choice(['generic', 'generic', 'generic', 'planar', 'planar-tilted']),
-                                                       rng.choice([(), (), (), (2,), (3,)]))
+        pl = plan[k] if k < len(plan) else dict(kind=rng.choice(['generic', 'generic', 'generic', 'planar', 'planar-tilted']),
+                                                shape=rng.choice([(), (), (), (2,), (3,)]))
+        kind, shape = pl['kind'], pl['shape']
         B = 1
         for d in shape:
             B *= d
-        N = rng.randint(4, 14) if rng.random() < 0.8 else rng.randint(15, ctx.scale(24, 60))
+        N = pl['N'] if 'N' in pl else (rng.randint(4, 14) if rng.random() < 0.7 else rng.randint(15, big // B))
+        far = pl['far'] if 'far' in pl else (0.0 if k < len(plan) or rng.random() < 0.6 else 10 ** rng.uniform(2, 9.7))
         share = bool(shape) and rng.random() < 0.3
-        trip = [gen_icp(rng, kind, N) for _ in range(B)]
+        trip = [gen_icp(rng, kind, N, far) for _ in range(B)]
         if share:
             # one target cloud for the whole batch: sources are the target moved back by different small motions
             base = trip[0]
@@ -792,10 +890,11 @@ def icp_block(ctx, pp, torch):
             x = torch.tensor([dr[j] * 0.05 * dm for j in range(3)] + [ax[j] * 0.1 * dm / (2 * ex) for j in range(3)], dtype=torch.float64)
             init = pp.se3(x).Exp()
         steps, patience = rng.randint(3, 25), rng.randint(1, 5)
+        form = k % len(ICP_FORMS)
         rec = dict(call='ICP', src=srcs, tgt=tgts, shape=list(shape), steps=steps, patience=patience,
-                   init=None if init is None else [float(v) for v in init.tensor().tolist()], share_target=share, kind=kind)
+                   init=None if init is None else [float(v) for v in init.tensor().tolist()], share_target=share, kind=kind, form=form)
         try:
-            out, klog, alog = run_icp(pp, torch, srcs, tgts, shape, steps, patience, init, share)
+            out, klog, alog = run_icp(pp, torch, srcs, tgts, shape, steps, patience, init, share, form)
         except Exception as e:      # noqa
             ctx.violation('ICP.forward:raises', 'ICP raised %s: %s' % (type(e).__name__, str(e)[:200]), rec)
             continue
@@ -803,12 +902,25 @@ def icp_block(ctx, pp, torch):
         ctx.case(('icp', kind, tuple(map(tuple, srcs[0])), steps, patience, use_init), nontrivial=True,
                  branch='icp:%s:%s:%s' % (kind, 'batched' if shape else 'single', 'init' if use_init else 'no-init'))
         ctx.count('icp-passes', len(klog))
+        ctx.count('icp:N:%s' % ('4-25' if N <= 25 else '26-60' if N <= 60 else '61-200'))
+        ctx.count('icp:distance-from-origin/spacing:%s' % ('<1e2' if far < 1e2 else '1e2-1e7' if far < 1e7 else '1e7-1e10'))
+        ctx.count('icp:call-form:%s' % (','.join(sorted(ICP_FORMS[form])) or 'defaults'))
         why = oracle_icp(pp, torch, rec, out)
         if why:
             ctx.violation(icp_key(rec), why, rec)
+        if not all(bool(torch.isfinite(x).all()) for e in klog for x in (e[0], e[2])) or \
+                not all(bool(torch.isfinite(x).all()) for e in alog for x in (e[0], e[1], e[2]) + tuple(e[3])):
+            # nothing exact can be said about a run with non-finite intermediate clouds / SVD answers; it is a finding by itself
+            if not why:
+                ctx.violation(icp_key(rec), 'ICP: non-finite intermediate cloud / transform during the run (the result is finite), N=%d %s cloud'
+                              % (N, kind), rec)
+            continue
         # ---- transitions of the loop body (first, middle, last pass of item 0 and of the last item)
         passes = len(klog)
         pick = (sorted(set([0, passes // 2, passes - 1])) if N <= 24 else [0]) if passes else []
+        coq_too = N <= 60 or ctx.thorough       # the largest clouds are judged by the property oracle only in the quick tier
+        if not coq_too:
+            continue
         for b in sorted(set([0, B - 1])):
             tgt_b = tgts[0] if share else tgts[b]
             for kpass in pick:
@@ -823,10 +935,13 @@ def icp_block(ctx, pp, torch):
                     nxt = fl(alog[-1][1].reshape(B, N, 3)[b])     # second argument of the final svdtf(source, temporal)
                 i = len(meta)
                 pm = float(np.abs(np.asarray(temporal)).max() + np.abs(np.asarray(tgt_b)).max()) + 1.0
+                # knn contract: the matched point is a closest one up to the rounding of the squared distances themselves
+                # (differences of the coordinates, not their magnitudes: the clouds may be far from the origin)
+                diam2 = float(((np.asarray(temporal)[:, None, :] - np.asarray(tgt_b)[None, :, :]) ** 2).sum(-1).max())
                 tol = tolerances(temporal, [tgt_b[j] for j in idxs], 1.0)
                 lit = '(%d%%nat, %s, %s, %s, (%s, %s, %s), %s, (%s, %s, %s, %s))' % (
                     i, qpts(temporal), qpts(tgt_b), coq_list('%d%%nat' % j for j in idxs), qm3(fl(U)), q3([float(v) for v in Sg.tolist()]), qm3(fl(Vh)),
-                    qpts(nxt), qtol(tol['o']), qtol(tol['f']), qtol(64 * EPS * pm * pm), qtol(4 * K_EPS * EPS * pm))
+                    qpts(nxt), qtol(tol['o']), qtol(tol['f']), qtol(64 * EPS * diam2 + 1e-300), qtol(4 * K_EPS * EPS * pm))
                 icp_lits.append((i, lit))
                 meta.append(dict(rec, item=b, kpass=kpass, kindcase='icp-pass'))
                 ctx.case(('icp-pass', tuple(map(tuple, temporal)), tuple(idxs)), nontrivial=True, branch='icp-pass:%s' % kind)
@@ -864,7 +979,7 @@ def oracle_icp(pp, torch, rec, out=None):
     srcs, tgts, shape = rec['src'], rec['tgt'], tuple(rec['shape'])
     init = None if rec['init'] is None else pp.SE3(torch.tensor(rec['init'], dtype=torch.float64))
     if out is None:
-        out, _, _ = run_icp(pp, torch, srcs, tgts, shape, rec['steps'], rec['patience'], init, rec['share_target'])
+        out, _, _ = run_icp(pp, torch, srcs, tgts, shape, rec['steps'], rec['patience'], init, rec['share_target'], rec.get('form', 0))
     o = out.tensor().reshape(len(srcs), 7)
     for b in range(len(srcs)):
         src = np.asarray(srcs[b])
@@ -874,11 +989,14 @@ def oracle_icp(pp, torch, rec, out=None):
             return 'ICP returned a non-finite transform %s' % v
         start = src if rec['init'] is None else se3_apply_np(rec['init'], src)
         e0, e1 = msd_np(start, tgt), msd_np(se3_apply_np(v, src), tgt)
+        # resolution of the result: a few thousand ulps of the coordinates (the clouds may be far from the origin, where float64
+        # resolves less; the spacing of the generated clouds is > 1e5 times that), squared
         ext = float(np.abs(tgt).max()) + 1.0
-        if e1 > e0 * (1 + 1e-9) + 1e-18 * ext * ext:
+        res2 = (1e-12 * ext) ** 2
+        if e1 > e0 * (1 + 1e-9) + res2:
             return ('ICP result has a larger mean squared closest-point distance (%.6g) than its initial transform (%.6g), item %d, N=%d %s cloud'
                     % (e1, e0, b, len(src), rec['kind']))
-        if not rec['share_target'] and e1 > 1e-18 * ext * ext:
+        if not rec['share_target'] and e1 > res2:
             return ('ICP did not recover a small exact rigid perturbation inside the basin (every displacement < 1/4 of the smallest point distance): '
                     'final mean squared closest-point distance %.6g, item %d, N=%d %s cloud' % (e1, b, len(src), rec['kind']))
     return None
@@ -1083,7 +1201,7 @@ def replay(ctx, c):
     for b, it in enumerate(items):
         o = it['out']
         sim = fn == 'svdstf'
-        why = oracle_align(rng, srcs[b], tgts[b], o[7] if sim else 1.0, quat_R(o[3:7]), o[0:3], sim, c.get('with_scale', True), c.get('exact', False))
+        why = oracle_align(rng, srcs[b], tgts[b], o[7] if sim else 1.0, quat_R(o[3:7]), o[0:3], sim, c.get('with_scale', True), c.get('exact', False), q=o[3:7])
         if why:
             return why
     return None
